@@ -630,6 +630,18 @@ class Analysis(object):
                                                  (isinstance(x, ast.Attribute) and x.attr == name) for x in ast.walk(n.test)):
                     if any(getattr(c, "lineno", -1) == s["line"] for c in ast.walk(n)):
                         return False
+                    # early exit decided by the root (`if key in ROOT: return ...` before the write): the write is as
+                    # conditional on what an earlier run stored as if it stood in the else branch
+                    if n.lineno < s["line"] and any(isinstance(c, (ast.Return, ast.Raise, ast.Continue, ast.Break))
+                                                    for b in (n.body, n.orelse) for st_ in b for c in ast.walk(st_)):
+                        return False
+            if tainted:
+                for n in ast.walk(f.node):
+                    if isinstance(n, ast.If) and n.lineno < s["line"] \
+                            and any(isinstance(x, ast.Name) and x.id in tainted for x in ast.walk(n.test)) \
+                            and any(isinstance(c, (ast.Return, ast.Raise, ast.Continue, ast.Break))
+                                    for b in (n.body, n.orelse) for st_ in b for c in ast.walk(st_)):
+                        return False
         return True
 
 
@@ -989,3 +1001,31 @@ def escaping_default_mutations(repo):
                         bad.append({"file": mf, "line": ml, "what": "%s.%s(%s=<mutable default>) is kept as .%s, which is mutated in place here: %s" % (
                             fn[:-3], f.name, a.arg, attr, mt)})
     return sites, bad
+
+
+def global_memos(repo):
+    """Process-lifetime memo: a function declares `global X`, assigns X, and tests X in an `if` (build once, reuse on later
+    calls -- `if X is not None: return X`).  Whatever X holds then outlives the run that built it: objects reachable from
+    it (typemaps, statement rows) carry what that run wrote into them into every later run of the process.  The root
+    collector does not see such names when their module-level initial value is None."""
+    bad = []
+    d = os.path.join(repo, PKG)
+    for fn in sorted(os.listdir(d)):
+        if not fn.endswith(".py"):
+            continue
+        tree = ast.parse(open(os.path.join(d, fn)).read())
+        for f in ast.walk(tree):
+            if not isinstance(f, (ast.FunctionDef, ast.AsyncFunctionDef)):
+                continue
+            gl = set(nm for n in ast.walk(f) if isinstance(n, ast.Global) for nm in n.names)
+            if not gl:
+                continue
+            assigned = set(t.id for n in ast.walk(f) if isinstance(n, (ast.Assign, ast.AugAssign))
+                           for t in (n.targets if isinstance(n, ast.Assign) else [n.target]) if isinstance(t, ast.Name))
+            for n in ast.walk(f):
+                if isinstance(n, (ast.If, ast.IfExp)):
+                    tested = set(x.id for x in ast.walk(n.test) if isinstance(x, ast.Name))
+                    for nm in sorted(gl & assigned & tested):
+                        bad.append({"file": fn, "line": n.lineno, "function": f.name,
+                                    "what": "global %s is tested and assigned in %s: a value built by one run is reused by later runs" % (nm, f.name)})
+    return bad
